@@ -334,6 +334,12 @@ impl WTClient {
     /// Flags a given tower as misbehaving, storing the misbehaving proof in the database.
     pub fn flag_misbehaving_tower(&mut self, tower_id: TowerId, proof: MisbehaviorProof) {
         if let Some(tower) = self.towers.get_mut(&tower_id) {
+            // Two requests may have been in flight when the tower misbehaved (e.g. two revocations sent at once, or the retrier
+            // and a fresh appointment), so the tower may have been flagged already. One proof is all that is needed (and kept).
+            if tower.status.is_misbehaving() {
+                log::warn!("{tower_id} was already flagged as misbehaving");
+                return;
+            }
             self.dbm.store_misbehaving_proof(tower_id, &proof).unwrap();
             tower.status = TowerStatus::Misbehaving;
         } else {
